@@ -768,3 +768,214 @@ pub fn replay(ctx: &Ctx, v: &Value) -> Report {
     }
     rep
 }
+
+// ---------------- a stream given up by its reader while the server keeps sending ----------------
+
+/// What one run of the scenario showed.
+#[derive(Clone, Debug, Default)]
+pub struct NeighbourObs {
+    pub how: &'static str,
+    /// items and end of the stream that is read to its end ("e=..", "END:..", "FINISH:rc=..:text")
+    pub b: Vec<String>,
+    pub b_expected: Vec<String>,
+    /// a single operation issued after everything else
+    pub later: String,
+    /// IDs still reserved / routing entries left once nothing is outstanding
+    pub ids_left: Vec<i32>,
+    pub maps_left: (usize, usize),
+    pub driver: String,
+    pub split: bool,
+}
+
+/// Two searches A and B on cloned handles.  The server sends part of both results; the reader of A
+/// gives up (drops the stream without finish(), finishes early, or its search() call is cancelled);
+/// the server, which was told nothing, sends the rest of A and of B (in the same burst as the first
+/// part, or in a later one).  B must be served exactly as if A's reader were still there, a later
+/// operation must work, and in the end nothing of A may be left behind.
+pub fn dropped_neighbour_case(rng: &mut Rng) -> NeighbourObs {
+    let how = *rng.pick(&["dropped-without-finish", "finished-early", "search()-call-cancelled"]);
+    let a_first = 1 + rng.usize(3);
+    let a_rest = 1 + rng.usize(4);
+    let b_n = 1 + rng.usize(5);
+    let b_first = rng.usize(b_n + 1);
+    let split = rng.bool();
+    let b_first_on_wire = rng.bool();
+    let rt = runtime(rng.next());
+    let mut obs = NeighbourObs { how, split, ..Default::default() };
+    for k in 0..b_n {
+        obs.b_expected.push(format!("e=B.{}", k));
+    }
+    obs.b_expected.push("END:Ok(None)".into());
+    obs.b_expected.push("FINISH:rc=0:t:B:done".into());
+    let how2 = how;
+    let (b, later, ids_left, maps_left, driver) = rt.block_on(async move {
+        let c = connect();
+        let ldap = c.ldap;
+        let gauges = ldap.verif_gauges();
+        let mut server = c.server;
+        let go_on = std::sync::Arc::new(tokio::sync::Notify::new());
+        let go_on2 = go_on.clone();
+        let srv = tokio::spawn(async move {
+            // two search requests, in either order
+            let mut ids: std::collections::HashMap<String, i64> = Default::default();
+            while ids.len() < 2 {
+                match server.request().await {
+                    Some(w) => {
+                        if let Ok(m) = w.msg {
+                            if let Req::Search { base, .. } = &m.op {
+                                ids.insert(String::from_utf8_lossy(base).into_owned(), m.id);
+                            }
+                        }
+                    }
+                    None => return,
+                }
+            }
+            let (ia, ib) = (ids["op=A"], ids["op=B"]);
+            let entry = |id: i64, name: &str, k: usize| ber::encode_min(&resp_node(id, &Resp::Entry { dn: format!("e={}.{}", name, k).into_bytes(), attrs: vec![] }, None));
+            let done = |id: i64, name: &str| ber::encode_min(&resp_node(id, &Resp::Done(Res::ok(&format!("t:{}:done", name))), None));
+            let mut first = vec![];
+            let (mut fa, mut fb) = (vec![], vec![]);
+            for k in 0..a_first {
+                fa.extend_from_slice(&entry(ia, "A", k));
+            }
+            for k in 0..b_first {
+                fb.extend_from_slice(&entry(ib, "B", k));
+            }
+            if b_first_on_wire {
+                first.extend_from_slice(&fb);
+                first.extend_from_slice(&fa);
+            } else {
+                first.extend_from_slice(&fa);
+                first.extend_from_slice(&fb);
+            }
+            let mut rest = vec![];
+            for k in a_first..a_first + a_rest {
+                rest.extend_from_slice(&entry(ia, "A", k));
+                if k == a_first && b_first < b_n {
+                    rest.extend_from_slice(&entry(ib, "B", b_first));
+                }
+            }
+            for k in (b_first + 1).min(b_n)..b_n {
+                rest.extend_from_slice(&entry(ib, "B", k));
+            }
+            rest.extend_from_slice(&done(ia, "A"));
+            rest.extend_from_slice(&done(ib, "B"));
+            if split {
+                server.send(&first);
+                go_on2.notified().await;
+                server.send(&rest);
+            } else {
+                first.extend_from_slice(&rest);
+                server.send(&first);
+                go_on2.notified().await;
+            }
+            // then serve whatever else comes
+            while let Some(w) = server.request().await {
+                if let Ok(m) = w.msg {
+                    if let Some(r) = crate::msg::reply_for(&m.op, Res::ok("t:later")) {
+                        server.send(&ber::encode_min(&resp_node(m.id, &r, None)));
+                    }
+                }
+            }
+        });
+        let mut la = ldap.clone();
+        let mut lb = ldap.clone();
+        let mut b: Vec<String> = vec![];
+        let dn_of = |e: &ResultEntry| match &item_out(e).node {
+            ber::Node::C { kids, .. } => match kids.first() {
+                Some(ber::Node::P { data, .. }) => String::from_utf8_lossy(data).into_owned(),
+                _ => "?".into(),
+            },
+            _ => "?".into(),
+        };
+        // A's reader
+        if how2 == "search()-call-cancelled" {
+            let mut sb = match lb.streaming_search("op=B", Scope::Subtree, "(a=b)", vec!["*"]).await {
+                Ok(s) => s,
+                Err(e) => return (vec![format!("START:{}", world::err_class(&e))], String::new(), vec![], (0, 0), String::new()),
+            };
+            // the collecting call is given up by its caller after a while (an application-level timeout)
+            let _ = tokio::time::timeout(std::time::Duration::from_millis(50), la.search("op=A", Scope::Subtree, "(a=b)", vec!["*"])).await;
+            go_on.notify_one();
+            world::settle().await;
+            read_to_end(&mut sb, &mut b, &dn_of).await;
+        } else {
+            let sa = la.streaming_search("op=A", Scope::Subtree, "(a=b)", vec!["*"]).await;
+            let mut sb = match lb.streaming_search("op=B", Scope::Subtree, "(a=b)", vec!["*"]).await {
+                Ok(s) => s,
+                Err(e) => return (vec![format!("START:{}", world::err_class(&e))], String::new(), vec![], (0, 0), String::new()),
+            };
+            if let Ok(mut sa) = sa {
+                for _ in 0..a_first {
+                    let _ = world::watchdog(sa.next()).await;
+                }
+                if how2 == "finished-early" {
+                    let _ = sa.finish().await;
+                }
+                drop(sa);
+            }
+            go_on.notify_one();
+            world::settle().await;
+            read_to_end(&mut sb, &mut b, &dn_of).await;
+        }
+        world::settle().await;
+        let mut l3 = ldap.clone();
+        let later = world::watchdog(invoke(&mut l3, &Call::Delete { dn: "op=later".into() })).await.unwrap_or(Outcome::Hung);
+        let later = match &later {
+            Outcome::Res(r) => format!("Ok:{}", r.text),
+            o => o.class(),
+        };
+        world::settle().await;
+        let ids_left = ldap.verif_id_table().1;
+        let maps_left = (gauges.resultmap_len.load(std::sync::atomic::Ordering::SeqCst), gauges.searchmap_len.load(std::sync::atomic::Ordering::SeqCst));
+        drop(ldap);
+        drop(la);
+        drop(lb);
+        drop(l3);
+        let _ = srv.await;
+        let driver = format!("{:?}", c.driver.await);
+        (b, later, ids_left, maps_left, driver)
+    });
+    obs.b = b;
+    obs.later = later;
+    obs.ids_left = ids_left;
+    obs.maps_left = maps_left;
+    obs.driver = driver;
+    obs
+}
+
+async fn read_to_end<'a>(sb: &mut SearchStream<'a, &'a str, Vec<&'a str>>, b: &mut Vec<String>, dn_of: &dyn Fn(&ResultEntry) -> String) {
+    loop {
+        match world::watchdog(sb.next()).await {
+            Ok(Ok(Some(e))) => b.push(dn_of(&e)),
+            Ok(Ok(None)) => {
+                b.push("END:Ok(None)".into());
+                break;
+            }
+            Ok(Err(e)) => {
+                b.push(format!("END:Err({})", world::err_class(&e)));
+                break;
+            }
+            Err(()) => {
+                b.push("END:Hung".into());
+                break;
+            }
+        }
+    }
+    let r = sb.finish().await;
+    b.push(format!("FINISH:rc={}:{}", r.rc, r.text));
+}
+
+/// C10's view: the stream that is read to its end yields exactly what the server sent for it.
+pub fn dropped_neighbour(ctx: &Ctx) -> Report {
+    let n = ctx.n(4_000, 2_000_000);
+    par_cases(ctx, "dropped_neighbour", n, ctx.secs(10, 200), |i, rng, rep| {
+        let o = dropped_neighbour_case(rng);
+        let replay = json!({"lane":"dropped_neighbour","case":i});
+        if o.b != o.b_expected {
+            rep.violation(format!("C10:stream-next-to-a-given-up-stream:items-or-result-differ:{}", o.how), format!("neighbour {} ({}): want {:?} got {:?}; driver {}", o.how, if o.split { "rest sent later" } else { "everything in one burst" }, o.b_expected, o.b, o.driver), replay);
+        }
+        rep.count(&format!("neighbour_{}", o.how), 1);
+        rep.case(Some(fnv(format!("{}{}{:?}", o.how, o.split, o.b_expected.len()).as_bytes())));
+    })
+}
